@@ -30,8 +30,8 @@ Qed.
 Lemma has_negative_spec m : has_negative m = true <-> exists p, In p m /\ snd p < 0.
 Proof.
   unfold has_negative. rewrite existsb_exists. split; intros (p&H&E); exists p; split; auto.
-  - apply Z.ltb_lt; assumption.
-  - apply Z.ltb_lt; assumption.
+  - unfold negative_ok in E. rewrite negb_true_iff, Z.leb_gt in E. assumption.
+  - unfold negative_ok. rewrite negb_true_iff, Z.leb_gt. assumption.
 Qed.
 
 Theorem approx_negative_rejected bk nd pred ref :
